@@ -59,3 +59,12 @@ def run(ctx):
     slim = [{k: v for k, v in e.items() if k not in ("val", "obs", "b2")} for e in events]
     ctx.validate("Trace_Codec", slim, header={"schema": schema}, shard=4000)
     ctx.validate("Trace_Codec", ev2, header={"schema": small}, shard=6000)
+
+
+def redrive(ev):
+    if "val" not in ev and "src" not in ev.get("case", {}):
+        return None
+    if "src" in ev.get("case", {}):
+        small, _ = c02.pool(type("X", (), {"rnd": __import__("random").Random(0)})(), True)
+        return parsed_len_event((small, ev["ty"], None, bytes(ev["case"]["src"]), ev["case"].get("tag", "")))
+    return None
